@@ -184,3 +184,108 @@ Lemma pair_export_pcm_lemma target l r F :
   zlen (sm_pcm l) = 2 * F -> zlen (sm_pcm r) = 2 * F ->
   transcode target [src_of l; src_of r] 2 2 = Ok (interleave2 (sm_pcm l) (sm_pcm r)).
 Proof. intros Hl Hr. exact (transcode_stereo_pair_lemma target (sm_pcm l) (sm_pcm r) F Hl Hr). Qed.
+
+(** * The file table: one entry at a time (C14) *)
+Definition kept (pc : list Z) (sat : list link) (e : list Z) : res (list fentry) :=
+  r <- parse_fentry pc sat e ;;
+  Ok (match r with Some x => if fe_start x >? 0 then [x] else [] | None => [] end).
+Definition is_entry (e : list Z) : Prop := zlen e = 24 /\ u16 e 8 <> TABLE_END_FLAG.
+
+Lemma u16_app_l (a b : list Z) o : 0 <= o -> o + 1 < zlen a -> u16 (a ++ b) o = u16 a o.
+Proof. intros H1 H2. unfold u16. rewrite !znth_app_l by lia. reflexivity. Qed.
+Lemma firstn_24_app (e rest : list Z) : zlen e = 24 -> firstn 24 (e ++ rest) = e.
+Proof.
+  intros H. assert (L : length e = 24%nat) by (unfold zlen in H; lia).
+  rewrite <- L at 1. rewrite firstn_app, firstn_all, Nat.sub_diag. cbn. apply app_nil_r.
+Qed.
+Lemma skipn_24_app (e rest : list Z) : zlen e = 24 -> skipn 24 (e ++ rest) = rest.
+Proof.
+  intros H. assert (L : length e = 24%nat) by (unfold zlen in H; lia).
+  rewrite <- L at 1. rewrite skipn_app, skipn_all, Nat.sub_diag. reflexivity.
+Qed.
+
+Lemma entries_loop_step n pc sat e rest :
+  is_entry e ->
+  entries_loop (S n) pc sat (e ++ rest)
+  = (k <- kept pc sat e ;; r <- entries_loop n pc sat rest ;; Ok (k ++ r)).
+Proof.
+  intros [He Hf]. cbn [entries_loop]. rewrite u16_app_l by lia.
+  destruct (Z.eqb_spec (u16 e 8) TABLE_END_FLAG) as [Hc|_]; [contradiction|].
+  rewrite firstn_24_app, skipn_24_app by assumption. unfold kept.
+  destruct (parse_fentry pc sat e) as [[x|]| |]; cbn [bind]; try reflexivity;
+    destruct (entries_loop n pc sat rest) as [r| |]; cbn [bind]; try reflexivity.
+  destruct (fe_start x >? 0); reflexivity.
+Qed.
+
+Fixpoint kept_all (pc : list Z) (sat : list link) (es : list (list Z)) : res (list fentry) :=
+  match es with
+  | [] => Ok []
+  | e :: t => k <- kept pc sat e ;; r <- kept_all pc sat t ;; Ok (k ++ r)
+  end.
+
+(** the table loop over [es ++ tail] = the entries of [es], each on its own, then the tail *)
+Lemma entries_loop_decompose pc sat : forall es m tail,
+  Forall is_entry es ->
+  entries_loop (length es + m) pc sat (concat es ++ tail)
+  = (a <- kept_all pc sat es ;; r <- entries_loop m pc sat tail ;; Ok (a ++ r)).
+Proof.
+  induction es as [|e t IH]; intros m tail HF.
+  - cbn [length plus concat app kept_all bind]. destruct (entries_loop m pc sat tail); reflexivity.
+  - inversion HF as [|? ? He Ht]; subst. cbn [length plus concat kept_all]. rewrite <- app_assoc.
+    rewrite entries_loop_step by assumption. rewrite IH by assumption.
+    destruct (kept pc sat e) as [k| |]; cbn [bind]; try reflexivity.
+    destruct (kept_all pc sat t) as [a| |]; cbn [bind]; try reflexivity.
+    destruct (entries_loop m pc sat tail) as [r| |]; cbn [bind]; try reflexivity.
+    now rewrite app_assoc.
+Qed.
+Lemma kept_all_app pc sat a b :
+  kept_all pc sat (a ++ b) = (x <- kept_all pc sat a ;; y <- kept_all pc sat b ;; Ok (x ++ y)).
+Proof.
+  induction a as [|e t IH]; cbn [app kept_all bind].
+  - destruct (kept_all pc sat b); reflexivity.
+  - destruct (kept pc sat e) as [k| |]; cbn [bind]; try reflexivity. rewrite IH.
+    destruct (kept_all pc sat t) as [x| |]; cbn [bind]; try reflexivity.
+    destruct (kept_all pc sat b) as [y| |]; cbn [bind]; try reflexivity. now rewrite app_assoc.
+Qed.
+Lemma kept_length pc sat e k : kept pc sat e = Ok k -> (length k <= 1)%nat.
+Proof.
+  unfold kept. destruct (parse_fentry pc sat e) as [[x|]| |]; cbn [bind]; try discriminate; intros [= <-].
+  - destruct (fe_start x >? 0); cbn; lia.
+  - cbn. lia.
+Qed.
+Lemma entries_loop_end m pc sat tail : u16 tail 8 = TABLE_END_FLAG -> entries_loop m pc sat tail = Ok [].
+Proof. intros H. destruct m; [reflexivity|]. cbn [entries_loop]. now rewrite H, Z.eqb_refl. Qed.
+
+(** Isolation: damage the 24 bytes of ONE entry (any bytes, as long as bytes 8-9 do not read
+    as the end-of-table mark and the entry does not raise an uncaught exception): every other
+    entry of the table yields exactly what it yielded before, in the same order; at most the
+    damaged entry's own item disappears or changes.  The partition bytes [pc'] of the damaged
+    image may differ from [pc] as long as the other entries read the same through both (they
+    do when their chains avoid the directory sector, see [segment_content_local]). *)
+Lemma akai_entry_isolation_lemma pc pc' sat es1 e e' es2 tail m A B x x' :
+  Forall is_entry es1 -> is_entry e -> is_entry e' -> Forall is_entry es2 ->
+  u16 tail 8 = TABLE_END_FLAG ->
+  kept_all pc sat es1 = Ok A -> kept_all pc' sat es1 = Ok A ->
+  kept_all pc sat es2 = Ok B -> kept_all pc' sat es2 = Ok B ->
+  kept pc sat e = Ok x -> kept pc' sat e' = Ok x' ->
+  entries_loop (length (es1 ++ e :: es2) + m) pc sat (concat (es1 ++ e :: es2) ++ tail) = Ok (A ++ x ++ B)
+  /\ entries_loop (length (es1 ++ e' :: es2) + m) pc' sat (concat (es1 ++ e' :: es2) ++ tail) = Ok (A ++ x' ++ B)
+  /\ (length x <= 1)%nat /\ (length x' <= 1)%nat.
+Proof.
+  intros H1 He He' H2 Ht HA HA' HB HB' Hx Hx'.
+  assert (G : forall q d y, kept_all q sat es1 = Ok A -> kept_all q sat es2 = Ok B -> is_entry d -> kept q sat d = Ok y ->
+              entries_loop (length (es1 ++ d :: es2) + m) q sat (concat (es1 ++ d :: es2) ++ tail) = Ok (A ++ y ++ B)).
+  { intros q d y Ha Hb Hd Hy. rewrite entries_loop_decompose.
+    - rewrite kept_all_app, Ha. cbn [bind kept_all]. rewrite Hy, Hb. cbn [bind].
+      rewrite entries_loop_end by assumption. cbn [bind]. now rewrite app_nil_r.
+    - apply Forall_app. split; [assumption|]. constructor; assumption. }
+  split; [now apply G|]. split; [now apply G|]. split; eapply kept_length; eassumption.
+Qed.
+
+(** the bytes a chain delivers depend only on the chain's own sectors *)
+Lemma segment_content_local pc pc' secs :
+  (forall s, In s secs -> slice pc (s * SECTOR) ((s + 1) * SECTOR) = slice pc' (s * SECTOR) ((s + 1) * SECTOR)) ->
+  segment_content pc secs = segment_content pc' secs.
+Proof.
+  intros H. unfold segment_content. f_equal. apply map_ext_in. exact H.
+Qed.
